@@ -98,7 +98,7 @@ def run(ctx):
         return i, j
 
     # ---------------- 1. constraint function, Jacobian, first guess, Cholesky -------------
-    for q in range(ctx.n(120, 2500)):
+    for q in range(ctx.n(300, 4000)):
         n = rng.choice(G.NS_ALL + [rng.randint(8, 180)])
         th = G.to_rad(G.grid_deg(n, rng.choice([0.0, C.dyadic(rng, -180, 180, 10)])))
         if q < 5:
@@ -131,7 +131,7 @@ def run(ctx):
         i2, j2 = add({"op": "init", "m": G.fl(m)}, ["init " + " ".join(G.fl(m))])
         post.append(("fn", i0, j0, i1, j1, ids, i2, j2, kind, lk, dk, n, th, lam, m, d, h))
 
-    for q in range(ctx.n(80, 1500)):
+    for q in range(ctx.n(200, 3000)):
         B = [[C.dyadic(rng, -1, 1, 8) for _ in range(4)] for _ in range(4)]
         kindc = rng.choice(["spd", "spd", "spd", "indefinite", "neg-first", "covariance"])
         A = [[sum(B[i][k] * B[j][k] for k in range(4)) for j in range(4)] for i in range(4)]
@@ -176,7 +176,7 @@ def run(ctx):
                                                                 C.flist(d), C.flist(th))])
                     post.append(("hard", i, j, hc, mir, k, n, th, m, g))
     # ---------------- 3./4. fidelity, solver agreement, rotation and mirror ---------------
-    ncase = ctx.n(10, 60)
+    ncase = ctx.n(24, 80)
     for q in range(ncase):
         n = NS[q % 4]
         dirs = G.grid_deg(n)
@@ -553,11 +553,66 @@ def eval_rot(ctx, it, impl, mod, stats):
 
 
 def replay(ctx, obj):
-    print("replay files are self-describing: 'input' holds the arguments of the named call (op)")
+    """re-run the recorded call on the implementation under test"""
+    inp = obj.get("input", obj)
+    op = inp.get("op", "")
+    if op.startswith("estimate_directional_distribution"):
+        dirs = inp["direction"]; n = len(dirs)
+        ms = [inp["moments"]] + ([inp["base_moments"]] if "base_moments" in inp else [])
+        for method, sm, _ in G.VARIANTS:
+            case = {"op": "est", "method": method, "sm": sm, "dirs": G.fl(dirs), "shape": [len(ms)],
+                    "a1": G.fl([m[0] for m in ms]), "b1": G.fl([m[1] for m in ms]),
+                    "a2": G.fl([m[2] for m in ms]), "b2": G.fl([m[3] for m in ms])}
+            r = ctx.impl("C06.py", {"cases": [case]})["results"][0]
+            if err_of(r):
+                print("REPLAY %s/%s raised %s: %s" % (method, sm, r["error"], r["msg"]))
+                ctx.oracle_fail("raised", inp)
+                continue
+            out = G.unfl(r["out"])
+            for e, m in enumerate(ms):
+                D = out[e * n:(e + 1) * n]
+                mi = G.moments_of(D, dirs, 360.0 / n)
+                print("REPLAY %s/%s moments in %s -> moments of the result %s (four-moment error %.3g)" % (
+                    method, sm, m, mi, G.norm([a - b for a, b in zip(mi, m)])))
+            if len(ms) == 2 and "rotation_bins" in inp:
+                k = inp["rotation_bins"]; b = out[n:2 * n]
+                if inp.get("mirrored"):
+                    b = mirror_list(b)
+                exp = rotl(b, k)
+                print("REPLAY %s/%s equivariance defect / peak = %.3g" % (method, sm, max(abs(x - y) for x, y in zip(out[:n], exp)) / max(exp)))
+    elif op.startswith("mem2_newton_solver"):
+        m = inp["moments"]; g = inp.get("guess", _init(m)); th = inp["directions_radians"]; n = len(th)
+        d = inp.get("direction_increment", [2 * math.pi / n] * n)
+        r = ctx.impl("C06.py", {"cases": [{"op": "solver", "m": G.fl(m), "g": G.fl(g), "th": G.fl(th), "d": G.fl(d)}]})["results"][0]
+        if err_of(r):
+            print("REPLAY mem2_newton_solver raised", r)
+            ctx.oracle_fail("raised", inp)
+        else:
+            D = G.unfl(r)
+            print("REPLAY mem2_newton_solver: min %g integral %.12g residual %.4g" % (min(D), sum(a * b for a, b in zip(D, d)), residual(D, th, d, m)))
+    else:
+        print("replay: the file is self-describing; 'input' holds the arguments of the call named in 'op':", op)
 
 
-READY = False
-LEVEL_TEXT = ""
-LEVEL_NOTE = ""
-TECHNIQUE = "Coq proof (Coquelicot derivatives, trigonometric identities) + extracted-model correspondence + property oracles"
+READY = True
+LEVEL_TEXT = ("Theorems (Coq): for every lambda, every grid with positive increments and every m,n the entry (m,n) of mem2_jacobian is the "
+              "derivative (Coquelicot is_derive) of constraint m with respect to multiplier n -- the min-shift does not matter --, it equals "
+              "the covariance of the twiddle factors under the distribution and the lower-triangle formula is symmetric; solve_cholesky's "
+              "result solves the symmetric system; status Converged of the modelled Newton loop implies four-moment residual < atol and "
+              "accepted steps never increase the residual; rotation and mirror: for ANY grid and angle, MEM / the MEM2 distribution / the "
+              "constraint function of rotated (mirrored) inputs equal those of the original on the shifted (negated) grid, the first guess "
+              "is equivariant, and on uniform grids (N dl = 2pi) a rotation by k bins rotates the MEM output, the MEM2 distribution and the "
+              "constraint function by k bins (mirror: reverses them), so the exact solution set and the residual norm are equivariant. "
+              "Tied to /repo by running the extracted model and the implementation on the same inputs (constraints, Jacobian, first guess, "
+              "Cholesky, Newton solver incl. the five hard cases under all rotations and mirrors, estimates under all/some rotations); "
+              "fidelity (< atol), Newton-vs-scipy agreement, rotation/mirror of outputs, finite-difference Jacobian and the MEM "
+              "discretisation error (against the aliasing series) are evaluated on the implementation.")
+LEVEL_NOTE = ("Validated by execution, not proved: convergence of Newton/scipy on resolved inputs (fidelity < 0.01), agreement of the two "
+              "solvers, the MEM discretisation error (checked against the Poisson-summation prediction computed in the harness), equivariance "
+              "of the iterative Newton path (holds up to rounding because of the '<' tests; compared at 1e-6 of the peak on paths whose "
+              "branch margins exceed 1e-6, otherwise in the four-moment norm), everything about scipy.optimize.root(lm) and np.linalg.lstsq "
+              "(not modelled). No rounding-error bound is proved.")
+TRUSTED = ["extracted model (R as binary64, libm of OCaml vs numpy/numba)", "harness tolerances documented in ASSUMPTIONS",
+           "aliasing-series oracle for MEM (harness Python, 30 lines)", "scipy.special.ive for generating von-Mises moments (inputs only)"]
+TECHNIQUE = "Coq proof (Coquelicot derivatives, nsatz trigonometric identities, permutation sums) + extracted-model correspondence + property oracles"
 DESIGN_REF = "DESIGN.md section 5 C06"
